@@ -80,16 +80,29 @@ impl<const N: usize> Sodg<N> {
                         break;
                     }
                 }
-                self.vertices.get_mut(v2).unwrap().branch = ours;
+                if vtx1.persistence == Persistence::Stored {
+                    *self.stores.get_mut(ours).unwrap() += 1;
+                }
+                let vtx2 = self.vertices.get_mut(v2).unwrap();
+                vtx2.branch = ours;
+                if vtx2.persistence == Persistence::Stored {
+                    *self.stores.get_mut(ours).unwrap() += 1;
+                }
                 self.branches.get_mut(ours).unwrap().push(v2);
             } else {
                 vtx1.branch = theirs;
+                if vtx1.persistence == Persistence::Stored {
+                    *self.stores.get_mut(theirs).unwrap() += 1;
+                }
                 self.branches.get_mut(theirs).unwrap().push(v1);
             }
         } else {
             let vtx2 = self.vertices.get_mut(v2).unwrap();
             if vtx2.branch == BRANCH_STATIC {
                 vtx2.branch = ours;
+                if vtx2.persistence == Persistence::Stored {
+                    *self.stores.get_mut(ours).unwrap() += 1;
+                }
                 self.branches.get_mut(ours).unwrap().push(v2);
             }
         }
